@@ -40,9 +40,14 @@ Inductive action :=
 
 Inductive kind := Request | Notification | Background.
 
+(* names are lists of characters (not Coq strings) so that the extracted OCaml does not define a type `string`;
+   write them as  nm "textDocument/hover" *)
+Definition name := list Ascii.ascii.
+Definition nm (s : string) : name := list_ascii_of_string s.
+
 Record handler := mkHandler {
-  hname : string;          (* LSP method *)
-  hfunc : string;          (* Go method of *LspServer *)
+  hname : name;            (* LSP method *)
+  hfunc : name;            (* Go method of *LspServer *)
   hkind : kind;            (* LSP kind of the method (a message carries its own flag, see msg) *)
   hbody : list action }.
 
@@ -459,10 +464,10 @@ Section Dispatcher.
 End Dispatcher.
 
 (* names of the handlers that touch shared state without holding requestMutex *)
-Definition unlocked_names (hs : list handler) : list string :=
+Definition unlocked_names (hs : list handler) : list name :=
   map hname (filter (fun h => negb (locked h)) hs).
 (* handlers whose critical sections are split (the handler as a whole is not atomic) *)
-Definition split_names (hs : list handler) : list string :=
+Definition split_names (hs : list handler) : list name :=
   map hname (filter (fun h => Nat.ltb 1 (count_locks (hbody h))) hs).
 
 (* ------------------------------------------------------------------ data layer (for serialisability)
